@@ -192,7 +192,8 @@ def treeDiff : Tree → Tree → Option String
       | some x, some y => treesDiff x y
       | _, _ => some "selection-set-presence"
   | .frag t1 k1, .frag t2 k2 => if t1 != t2 then some "fragment-type" else treesDiff k1 k2
-  | _, _ => some "node-kind"
+  | .frag .., .field .. => some "inline-fragment-only-in-operation-text"
+  | .field .., .frag .. => some "inline-fragment-only-in-normalization-ast"
 /-- operation tree first, normalization tree second -/
 def treesDiff : List Tree → List Tree → Option String
   | [], [] => none
@@ -204,32 +205,43 @@ def treesDiff : List Tree → List Tree → Option String
   | [], _ => some "extra-in-normalization-ast"
 end
 
-/-- the concrete type of every linked node is the field's target exactly when that is concrete -/
-def concreteOk (schema : Schema) : Nat → Str → List NTree → Bool
-  | 0, _, _ => true
-  | _, _, [] => true
+/-- the concrete type of every linked node is the field's target exactly when that is concrete;
+`none` = fine, otherwise the class of the first offending node -/
+def concreteDiff (schema : Schema) : Nat → Str → List NTree → Option String
+  | 0, _, _ => none
+  | _, _, [] => none
   | fuel + 1, parent, t :: rest =>
-    (match t with
-     | .scalar .. => true
-     | .linked _ name _ conc kids =>
-       match schema.lookup parent name with
-       | none => true          -- not in the table: nothing to check against
-       | some e =>
-         match e.ty.inner with
-         | none => true
-         | some target =>
-           (if e.isScalar then true
-            else if e.targetConcrete then (match conc with | .concrete c => c == target | .abstract => false)
-            else (match conc with | .abstract => true | .concrete _ => false))
-           && concreteOk schema fuel target kids
-     | .frag ty kids => concreteOk schema fuel ty kids)
-    && concreteOk schema fuel parent rest
+    let here : Option String :=
+      match t with
+      | .scalar .. => none
+      | .linked _ name _ conc kids =>
+        match schema.lookup parent name with
+        | none => none          -- not in the table: nothing to check against
+        | some e =>
+          match e.ty.inner with
+          | none => none
+          | some target =>
+            let self : Option String :=
+              if e.isScalar then none
+              else if e.targetConcrete then
+                (match conc with
+                 | .concrete c => if c == target then none else some "wrong-concrete-type"
+                 | .abstract => some "concrete-field-without-concrete-type")
+              else (match conc with
+                 | .abstract => none
+                 | .concrete _ => some "abstract-field-with-concrete-type")
+            self.orElse fun _ => concreteDiff schema fuel target kids
+      | .frag ty kids => concreteDiff schema fuel ty kids
+    here.orElse fun _ => concreteDiff schema fuel parent rest
 
 /-- C11's decidable statement on one pair of generated files -/
 def c11Oracle (schema : Schema) (root : Str) (op : ParsedOperation) (norm : List NTree) : String :=
   match treesDiff (QNode.toTrees op.selections) (NTree.eraseList norm) with
   | some d => "bad:tree:" ++ d
-  | none => if concreteOk schema 1000 root norm then "ok" else "bad:concrete-type"
+  | none =>
+    match concreteDiff schema 1000 root norm with
+    | none => "ok"
+    | some c => "bad:concrete-type:" ++ c
 
 /-! ### C12: response keys -/
 
@@ -262,11 +274,26 @@ end
 
 def argsAny (p : Value → Bool) (args : Args) : Bool := args.any fun a => a.2.anyLeaf p
 
+mutual
+/-- every name inside the value (variable, enum value, object key) is a GraphQL name -/
+def Value.namesLegal : Value → Bool
+  | .var n => isGqlName n
+  | .enum e => isGqlName e
+  | .obj fields => Value.namesLegalFields fields
+  | .list items => Value.namesLegalList items
+  | _ => true
+def Value.namesLegalFields : List (Str × Value) → Bool
+  | [] => true
+  | (k, v) :: rest => isGqlName k && v.namesLegal && Value.namesLegalFields rest
+def Value.namesLegalList : List Value → Bool
+  | [] => true
+  | v :: rest => v.namesLegal && Value.namesLegalList rest
+end
+
 /-- narrow classifier for an illegal key -/
 def classifyIllegal (key : Str) (args : Args) : String :=
   if argsAny (fun v => match v with | .int i => i < 0 | _ => false) args && key.contains 45 then "negative-int-alias"
   else if argsAny (fun v => match v with | .float _ => true | _ => false) args then "float-alias"
-  else if !(key.all (fun c => c < 128)) then "non-ascii-name-in-alias"
   else "other"
 
 /-- narrow classifier for two different selections with one key -/
@@ -302,7 +329,7 @@ def keysOracle : Nat → List QNode → Option String
   | 0, _ => none
   | fuel + 1, sels =>
     let keys := fieldKeys sels
-    match keys.find? (fun e => !(isGqlName e.1)) with
+    match keys.find? (fun e => !(isGqlName e.1) && isGqlName e.2.1 && Value.namesLegalFields e.2.2) with
     | some e => some ("illegal-key:" ++ classifyIllegal e.1 e.2.2)
     | none =>
       match firstCollision keys with
@@ -679,7 +706,8 @@ def aliasLine (_prop : String) (args impl : List String) : String :=
           match keyOfAnswer name al with
           | none => "ok"          -- list value: the compiler panics, no key exists
           | some key =>
-            if !(isGqlName key) then "bad:illegal-key:" ++ classifyIllegal key a
+            if !(isGqlName key) && isGqlName name && Value.namesLegalFields a then
+              "bad:illegal-key:" ++ classifyIllegal key a
             else if runtime == strHex key then "ok"
             else "bad:runtime-key:" ++ classifyRuntime a
         | _ => "bad:unparsable-impl-answer"
